@@ -80,7 +80,11 @@ func (w *world) startService() {
 		opts = append(opts, service.WithCustomHandleFunc(func() map[consts.JT808CommandType]service.Handler {
 			ci := connOfPeer(simnet.LastAccepted)
 			m := map[consts.JT808CommandType]service.Handler{}
-			for id, mk := range modelTable(w.plan.Svc.Dialect) {
+			tbl := modelTable(w.plan.Svc.Dialect)
+			if w.plan.Svc.Ext {
+				tbl[consts.T0200LocationReport] = func() service.JT808Handler { return &meLocation{} }
+			}
+			for id, mk := range tbl {
 				m[id] = &recHandler{JT808Handler: mk(), rx: mk(), w: w, conn: ci, parse: parse, mk: mk}
 			}
 			return m
